@@ -40,6 +40,7 @@ type GenCfg struct {
 	NJVars                                                                                     int    // string variables that hold node titles
 	Probes                                                                                     bool   // pn/pb/ps/pn2 host functions in expressions
 	Visited                                                                                    bool   // visited()/visited_count() in expressions
+	MoreBuiltins                                                                               int    // added to the percentages with which built-ins (and round_places among them) are drawn
 	NoLongLines                                                                                bool   // C05/C20: every base script is loaded hundreds of times - long lines come as stream cases there
 	HostFnWrites                                                                               bool   // <<call pw("n0", e)>>: a host function that writes a variable while the script runs
 	BigRoundsPct                                                                               int    // share of hub worlds whose loop runs 126-300 rounds
@@ -714,12 +715,12 @@ func (g *gen) expr(ty byte, depth int) *Expr {
 	if depth <= 0 || g.tp.Chance(35, "leaf") {
 		return g.atom(ty)
 	}
-	if g.cfg.Builtins && g.tp.Chance(25, "builtin") {
+	if g.cfg.Builtins && g.tp.Chance(25+g.cfg.MoreBuiltins, "builtin") {
 		switch ty {
 		case 'n':
 			f := []string{"round", "floor", "ceil", "inc", "dec", "decimal", "integer"}[g.tp.Int(0, 6, "numfn")]
-			if g.tp.Chance(15, "roundplaces") {
-				return &Expr{K: eCall, S: "round_places", A: []*Expr{g.expr('n', depth-1), numLit(float64(g.tp.Int(0, 3, "places")))}}
+			if g.tp.Chance(15+g.cfg.MoreBuiltins, "roundplaces") {
+				return &Expr{K: eCall, S: "round_places", A: []*Expr{g.expr('n', depth-1), numLit(float64([]int{0, 1, 2, 3, -1, -2, 15, 16, 17, 31, 32}[g.tp.Pick([]int{4, 4, 4, 4, 1, 1, 1, 1, 1, 1, 1}, "places")]))}}
 			}
 			if g.tp.Chance(10, "numberfn") {
 				return &Expr{K: eCall, S: "number", A: []*Expr{{K: eStr, S: []string{"12", "2.5", "0"}[g.tp.Int(0, 2, "numstr")]}}}
